@@ -227,7 +227,8 @@ def run_discovery(
     n_days: int = 1,
     samples: list[tuple[int, float]] | None = None,
     qos: bool | None = None,
-    start: str = "named",  # "named": schema {CTL: {}} ; "heard": no schema, CTL announces itself
+    start: str = "named",  # "named": schema {CTL: {}} ; "heard": no schema, CTL announces itself after start-up;
+    # "early": no schema, CTL's sync packet is heard while the gateway is still starting (before connection_made)
     seed: int = 0,
     stop_when_complete: bool = True,
     eavesdrop: bool = False,
@@ -306,7 +307,8 @@ def run_discovery(
         if max_zones is not None:
             config["max_zones"] = max_zones
         schema = {CTL: {}} if start == "named" else {}
-        gwy, t = await fakes.make_port_gateway(on_write=on_write, config=config, schema=schema)
+        early = [f" I --- {CTL} --:------ {CTL} 1F09 003 FF0708"] if start == "early" else None
+        gwy, t = await fakes.make_port_gateway(on_write=on_write, config=config, schema=schema, early_rx=early)
         box.update(gwy=gwy, loop=loop)
         if start == "heard":
             t.rx(f" I --- {CTL} --:------ {CTL} 1F09 003 FF0708", 1.0)
